@@ -148,8 +148,9 @@ def open_reader(g, d):
     else:
         rate = g['chunk'] / 600.
         if be == 'flat':
-            paths = L.write_flat(d, A, g['parts'], ext='.bin')
-            rd = get_ephys_reader(paths, sample_rate=rate, dtype=A.dtype, n_channels=g['nc'])
+            off = [0, 16, 7, 0][(n + len(g['parts'])) % 4]          # a header before the samples of every part file
+            paths = L.write_flat(d, A, g['parts'], ext=['.bin', '.dat'][n % 2], offset=off)
+            rd = get_ephys_reader(paths, sample_rate=rate, dtype=A.dtype, n_channels=g['nc'], offset=off)
         elif be == 'npy':
             rd = get_ephys_reader(L.write_npy(d, A), sample_rate=rate)
         else:
